@@ -27,6 +27,8 @@ DEFAULTS = [
     ("obj", "Leaf", '{v: 1, s: "a"}'), ("objempty", "Leaf", "{}"), ("objenum", "WithEnum", "{k: B}"), ("objlist", "WithList", "{xs: [1, 2]}"),
     ("objobj", "Outer", "{leaf: {v: 2}}"), ("listobj", "[Leaf]", '[{v: 1}, {s: "z"}]'), ("nonnull", "Int!", "7"), ("id", "ID", '"abc"'), ("idint", "ID", "5"),
     ("blobobj", "Blob", "{a: 1}"), ("objwithdefaults", "Inner", "{}"), ("enumsoftkw", "Soft", "type"), ("listenumsoftkw", "[Soft!]", "[match, case]"), ("nonnullenum", "Kind!", "A"),
+    # values named like the attributes every Enum member has
+    ("enumresname", "Res", "name"), ("enumresvalue", "Res", "value"), ("listenumres", "[Res!]", "[value, name, names]"), ("nonnullenumres", "Res!", "value"),
 ]
 FIELD_NAMES = ["class", "from", "in", "None", "camelCase", "PascalCase", "snake_case", "HTTPCode", "a1B2", "_lead", "trail_", "copy", "json", "dict", "model_config",
                "model_fields", "schema", "construct", "validate", "id", "type", "match", "self", "cls", "Field", "Optional", "List", "Any", "BaseModel", "Kind", "x__y"]
@@ -38,7 +40,7 @@ def _all_field_names():
 
 
 def build_schema_text():
-    parts = ["enum Kind { A B in }", "enum Soft { type match case }", "scalar Blob", "input Leaf { v: Int s: String }", "input WithEnum { k: Kind }", "input WithList { xs: [Int!] }",
+    parts = ["enum Kind { A B in }", "enum Soft { type match case }", "enum Res { name value names }", "scalar Blob", "input Leaf { v: Int s: String }", "input WithEnum { k: Kind }", "input WithList { xs: [Int!] }",
              "input Outer { leaf: Leaf }", "input Inner { a: Int = 1 k: Kind = A }", "input Rec { id: ID! next: Rec kids: [Rec!] }",
              "input Mixed { req: String! opt: Int kind: Kind! leaf: Leaf leaves: [Leaf!] }"]
     names = ["Rec", "Mixed", "Inner"]
